@@ -1967,7 +1967,7 @@ class RecordTensor(ShapedTensor):
                 self.__data = torch.cat(
                     (
                         data[slice(0, ptr), ...],
-                        obs,
+                        obs.to(dtype=data.dtype),
                         data[slice(ptr + length, None), ...],
                     ),
                     0,
@@ -1990,7 +1990,7 @@ class RecordTensor(ShapedTensor):
             indices = _unwind_tensor_ptr(ptr, offset, recordsz)
 
             # reshape observations for compatibility
-            obs = ein.rearrange(obs, "... t -> t ...")
+            obs = ein.rearrange(obs, "... t -> t ...").to(dtype=data.dtype)
 
             # write to storage
             if inplace:
